@@ -8,6 +8,8 @@ Model side: lean/GEVerif/Model/Eval.lean; theorems: lean/GEVerif/Props/C13.lean.
 """
 from __future__ import annotations
 
+import json
+
 import os
 import tempfile
 
@@ -106,7 +108,18 @@ def build_problem(spec, log, tag, delays=None):
             return buf
         ff = logging_ff(log, tag, into_buffer, delays)
     else:
-        ff = logging_ff(log, tag, lambda key: list(rows[key]), delays)
+        # (the components come back as a list, a tuple, a one-shot generator or a numpy array: read once, recorded as floats, and
+        # the aggregate is computed from what was recorded)
+        shape = spec.get("shape", "list")
+        if shape == "generator":
+            ff = logging_ff(log, tag, lambda key: (x for x in rows[key]), delays)
+        elif shape == "tuple":
+            ff = logging_ff(log, tag, lambda key: tuple(rows[key]), delays)
+        elif shape == "array":
+            import numpy as np
+            ff = logging_ff(log, tag, lambda key: np.array(rows[key], dtype=float), delays)
+        else:
+            ff = logging_ff(log, tag, lambda key: list(rows[key]), delays)
     if k == "multi":
         return MultiObjectiveProblem(list(spec["mins"]), ff)
     if k == "multibool":
@@ -147,8 +160,16 @@ def check_aggregate(h: Harness):
         if rng.random() < 0.3:
             spec["rows"] = [[rng.choice([0, 0, 1, -1, 7]) for _ in spec["rows"][0]]]
         log = MemLog()
+        if spec["kind"] != "single" and not spec.get("reuse_buffer"):
+            spec["shape"] = rng.choice(["list", "list", "generator", "tuple", "array"])
+            h.count("aggregate:components-as-" + spec["shape"])
         pr = build_problem(spec, log, 0)
-        f = pr.evaluate((0, 0))
+        try:
+            f = pr.evaluate((0, 0))
+        except Exception as e:  # noqa: BLE001
+            h.fail(type(pr).__name__ + ".evaluate", "raises", f"evaluate with {describe(spec)}, components {spec['rows'][0]} returned as a "
+                   f"{spec.get('shape', 'list')}: {type(e).__name__}: {e}", {"spec": spec})
+            continue
         site = type(pr).__name__ + ".evaluate"
         h.agree(site, ["aggregate", wire_kind(spec), spec["rows"][0]], wire_fitness(f),
                 nontrivial=spec["kind"] != "single" and len(spec["rows"][0]) > 1)
@@ -712,7 +733,59 @@ def check_simplegp_problems(h: Harness):
                 break
 
 
+def check_parallel_sees_current_data(h: Harness):
+    """a fitness function that reads module-level data (the data set of the user's script), replaced between two evaluations: the
+    parallel evaluator records, for every batch, what the fitness function returns NOW -- the values the sequential evaluator records.
+    (Fresh interpreter; the two batches have different sizes.)"""
+    import os
+    import subprocess
+    import sys
+    code = (
+        "import json, pargrammar\n"
+        "from geneticengine.evaluation.parallel import ParallelEvaluator\n"
+        "from geneticengine.evaluation.sequential import SequentialEvaluator\n"
+        "from geneticengine.problems import SingleObjectiveProblem\n"
+        "from geneticengine.random.sources import NativeRandomSource\n"
+        "from geneticengine.representations.tree.initializations import MaxDepthDecider\n"
+        "from geneticengine.representations.tree.treebased import TreeBasedRepresentation\n"
+        "from geneticengine.solutions.individual import Individual\n"
+        "g = pargrammar.grammar(); r = NativeRandomSource(SEED); rep = TreeBasedRepresentation(g, MaxDepthDecider(r, g, 4))\n"
+        "out = []\n"
+        "for target, n in ((3, SIZES[0]), (40, SIZES[1]), (7, SIZES[2])):\n"
+        "    pargrammar.DATA['target'] = target\n"
+        "    trees = [rep.create_genotype(r) for _ in range(n)]\n"
+        "    par = [Individual(t, rep) for t in trees]; seq = [Individual(t, rep) for t in trees]\n"
+        "    pp = SingleObjectiveProblem(pargrammar.ff_data); ps = SingleObjectiveProblem(pargrammar.ff_data)\n"
+        "    ParallelEvaluator().evaluate(pp, par); SequentialEvaluator().evaluate(ps, seq)\n"
+        "    out.append([target, [i.get_fitness(pp).fitness_components[0] for i in par], [i.get_fitness(ps).fitness_components[0] for i in seq],\n"
+        "                [pargrammar.ff_data(t) for t in trees]])\n"
+        "print('C13DATA ' + json.dumps(out))\n")
+    rng = h.rng
+    for trial in range(h.n(1, 4)):
+        sizes = rng.choice([[3, 5, 4], [2, 6, 3], [4, 7, 2]])
+        seed = rng.randrange(10**6)
+        env = dict(os.environ, PYTHONPATH=os.environ.get("VERIF_REPO", "/repo") + os.pathsep + os.path.dirname(os.path.dirname(os.path.abspath(__file__))))
+        try:
+            p = subprocess.run([sys.executable, "-c", code.replace("SEED", str(seed)).replace("SIZES", repr(sizes))], capture_output=True, text=True, env=env, timeout=300)
+        except subprocess.TimeoutExpired:
+            h.notes.append("parallel-sees-current-data: the fresh interpreter did not finish in 300 s; no verdict")
+            continue
+        line = next((x for x in p.stdout.splitlines() if x.startswith("C13DATA ")), None)
+        if line is None:
+            h.fail("ParallelEvaluator.evaluate", "raises", f"three parallel evaluations of batches {sizes} in a fresh interpreter failed: {p.stderr.strip()[-300:]}", [sizes, seed])
+            continue
+        h.count("parallel-sees-current-data")
+        h.seen(f"par-current-data:{sizes}:{seed}", nontrivial=True)
+        for k, (target, par, seq, now) in enumerate(json.loads(line[len("C13DATA "):])):
+            if par != seq or par != now:
+                h.fail("ParallelEvaluator.evaluate", "differs-from-sequential",
+                       f"batch #{k + 1} ({len(par)} individuals, module-level data set to target={target} before it, batches so far {sizes[:k + 1]}): the parallel "
+                       f"evaluator recorded {par}, the sequential one {seq}; the fitness function returns {now} for these programs", [sizes, seed, k])
+                break
+
+
 def run(h: Harness):
+    check_parallel_sees_current_data(h)
     check_unnumbered_objectives(h)
     check_simplegp_problems(h)
     check_weights_learnt_between_generations(h)
